@@ -663,7 +663,19 @@ def malformed_from(rng, m):
     paths = list(tree_paths(tree))
     cls = rng.choice(["type-swap", "type-swap", "dup-key", "drop-key", "rename-key", "enum-as-dict", "struct-as-list",
                       "int-text", "len-prefix", "len-prefix", "id-len", "want", "method", "error-shape", "non-utf8",
-                      "trailing", "byte-flip", "byte-insert", "byte-delete", "splice", "nonstring-key"])
+                      "trailing", "byte-flip", "byte-insert", "byte-delete", "splice", "nonstring-key", "list-desync"])
+    if cls == "list-desync":
+        # a struct given as a SHORT list: serde's visit_seq keeps asking for the defaulted fields after the list's
+        # `e`, i.e. the library reads on behind the enclosing container -- followed by tokens that a scan of
+        # only the first top-level value never sees
+        idb = b"20:" + rng.bytes(20)
+        k = rng.below(4)
+        elems = [idb, b"le", b"0:", b"0:"][:k + 1]
+        tail = rng.choice([b"99999999999:", b"0:0:99999999999:", b"0:0:1:x" + b"l" * 200 + b"e" * 200,
+                           b"0:1500:", b"l" * 100, b"0:0:1:t2:aa1:y1:re", b"18446744073709551615:", b"i1e"])
+        closers = b"e" * rng.range(1, 3)
+        pre = rng.choice([b"d1:rl", b"d1:t2:aa1:y1:r1:rl", b"l2:aa1:r4:pingd2:id" + idb + b"el"])
+        return cls, pre + b"".join(elems) + closers + tail + rng.choice([b"", b"e", b"1:t2:aa1:y1:re"])
     if cls == "type-swap":
         p = rng.choice(paths)
         return cls, benc(tree_replace(tree, p, lambda v: other_type(rng, v)))
